@@ -3,6 +3,7 @@ package main
 // C27 (authentication) and C28 (continuation tokens).
 
 import (
+	"go/token"
 	"go/types"
 	"fmt"
 	"strings"
@@ -84,7 +85,7 @@ func ruleOIDC(e *Engine, r *Reporter) {
 	// success returns
 	n := 0
 	for i, rs := range returnSites(fn) {
-		if !rs.isSuccess() {
+		if !rs.maySucceed() {
 			continue
 		}
 		n++
@@ -134,26 +135,28 @@ func ruleOIDC(e *Engine, r *Reporter) {
 func rulePSK(e *Engine, r *Reporter) {
 	r.Rule("psk-constant-time-all-keys", "PresharedKeyAuthenticator.Authenticate compares the token hash with every configured key hash through subtle.ConstantTimeCompare without early exit, and succeeds only when the accumulated match equals 1; the middleware rejects the request when Authenticate errs", 4)
 	fn := e.Func("internal/authn/presharedkey", "PresharedKeyAuthenticator.Authenticate")
-	var cmp *ssa.Call
-	eachInstr(fn, false, func(in ssa.Instruction) {
-		if c, ok := in.(*ssa.Call); ok {
-			if g := c.Call.StaticCallee(); g != nil && g.Name() == "ConstantTimeCompare" {
-				cmp = c
-			}
+	// the comparison may sit in Authenticate or in a same-package helper it calls (one level)
+	cmpAt, via := locateInRegion(fn, func(in ssa.Instruction) bool {
+		c, ok := in.(*ssa.Call)
+		if !ok {
+			return false
 		}
+		g := c.Call.StaticCallee()
+		return g != nil && g.Name() == "ConstantTimeCompare"
 	})
-	if cmp == nil {
+	if cmpAt == nil {
 		r.Bad("psk comparison", e.pos(fn.Pos()), "no subtle.ConstantTimeCompare: keys are compared in variable time or not at all")
 		return
 	}
-	// the compare sits in a loop over validKeyHashes from which no return is reachable without finishing the loop
+	cmp := cmpAt.(*ssa.Call)
+	hf := cmp.Parent()
+	// the compare sits in a loop over the key hashes from which no return is reachable without finishing the loop
 	h := loopHeader(cmp.Block())
 	inLoop := h != nil
 	earlyExit := false
 	if inLoop {
-		// a return reachable from the compare block without passing the loop header again = early exit
-		for _, rs := range returnSites(fn) {
-			reach, _ := reachable(fn, cmp, func(in ssa.Instruction) bool { return in == rs.At }, cutSpec{instr: func(in ssa.Instruction) bool { return in.Block() == h && indexOf(h, in) == 0 }})
+		for _, rs := range returnSites(hf) {
+			reach, _ := reachable(hf, cmp, func(in ssa.Instruction) bool { return in == rs.At }, cutSpec{instr: func(in ssa.Instruction) bool { return in.Block() == h && indexOf(h, in) == 0 }})
 			if reach {
 				earlyExit = true
 			}
@@ -161,9 +164,14 @@ func rulePSK(e *Engine, r *Reporter) {
 	}
 	r.Check(inLoop && !earlyExit, "psk compares all keys", e.instrPos(cmp), "loop over every configured hash, no early exit", "the comparison loop can exit early (or there is no loop): timing reveals which key matched / later keys are never compared")
 	args := describe_(cmp.Call.Args[0]) + " vs " + describe_(cmp.Call.Args[1])
+	if via != nil {
+		for _, a := range via.Common().Args {
+			args += " <- " + describe_(a)
+		}
+	}
 	r.Check(strings.Contains(args, "sha256.Sum256") && strings.Contains(args, "validKeyHashes"), "psk compares token hash with configured hashes", e.instrPos(cmp), args, "ConstantTimeCompare is not applied to (hash of the presented token, configured key hash): "+args)
 	// the hash covers the whole presented token: Sum256's argument is the extraction call's result itself
-	eachInstr(fn, false, func(in ssa.Instruction) {
+	eachInstr(hf, false, func(in ssa.Instruction) {
 		c, ok := in.(*ssa.Call)
 		if !ok {
 			return
@@ -176,6 +184,13 @@ func rulePSK(e *Engine, r *Reporter) {
 		if cv, ok := src.(*ssa.Convert); ok {
 			src = unwrap(cv.X)
 		}
+		if p, ok := src.(*ssa.Parameter); ok && via != nil { // the helper's token parameter: what the caller passes
+			for i, q := range hf.Params {
+				if q == p && i < len(via.Common().Args) {
+					src = unwrap(via.Common().Args[i])
+				}
+			}
+		}
 		whole := false
 		if ex, ok := src.(*ssa.Extract); ok {
 			if call, ok := ex.Tuple.(*ssa.Call); ok {
@@ -186,17 +201,49 @@ func rulePSK(e *Engine, r *Reporter) {
 		}
 		r.Check(whole, "psk hashes the whole presented token", e.instrPos(in), "Sum256(AuthFromMD result)", "the value hashed is "+describe_(c.Call.Args[0])+", not the bearer token as extracted: a token that merely shares a part with a configured key can authenticate")
 	})
+	isMatchedIs1 := func(f Fact) bool {
+		if f.Kind != "eq" || !f.Positive {
+			return false
+		}
+		n, ok := constInt(f.Y)
+		return ok && n == 1 && strings.Contains(describe_(f.X), "ConstantTimeCompare")
+	}
+	helperOK := true
+	if via != nil {
+		// the helper reports success only as (accumulated == 1)
+		for _, rs := range returnSites(hf) {
+			if len(rs.Results) != 1 {
+				helperOK = false
+				continue
+			}
+			res := unwrap(rs.Results[0])
+			if bv, isC := constBool(res); isC && !bv {
+				continue
+			}
+			if bo, ok := res.(*ssa.BinOp); ok && bo.Op == token.EQL {
+				if n, ok := constInt(bo.Y); ok && n == 1 && strings.Contains(describe_(bo.X), "ConstantTimeCompare") {
+					continue
+				}
+			}
+			if g, _ := mustPass(hf, rs.At, cutSpec{edge: isMatchedIs1}); g {
+				continue
+			}
+			helperOK = false
+		}
+	}
 	for i, rs := range returnSites(fn) {
 		if !rs.isSuccess() {
 			continue
 		}
-		g, _ := mustPass(fn, rs.At, cutSpec{edge: func(f Fact) bool {
-			if f.Kind != "eq" || !f.Positive {
-				return false
-			}
-			n, ok := constInt(f.Y)
-			return ok && n == 1 && strings.Contains(describe_(f.X), "ConstantTimeCompare")
-		}})
+		var g bool
+		if via == nil {
+			g, _ = mustPass(fn, rs.At, cutSpec{edge: isMatchedIs1})
+		} else {
+			g, _ = mustPass(fn, rs.At, cutSpec{edge: func(f Fact) bool {
+				return f.Kind == "call" && f.Positive && f.Call == via
+			}})
+			g = g && helperOK
+		}
 		r.Check(g, fmt.Sprintf("psk success return #%d", i), e.instrPos(rs.At), "behind matched == 1", "authentication succeeds on a path where the accumulated comparison result is not tested to be 1")
 	}
 	// middleware
